@@ -43,6 +43,11 @@ DEEP_QUICK = [("chain", 20000), ("chain_item", 1500), ("fan", 10000), ("chain_st
 DEEP_THOROUGH = DEEP_QUICK + [("chain", 100000), ("chain", 250000), ("chain_item", 4000), ("fan", 60000), ("chain_struct", 50000), ("comb", 1500)]
 
 
+def _shrunk(prog, how, pol, cs, oracle):
+    small, runs = tl.shrink_for(prog, how, pol, cs, MONITORS, oracle)
+    return {"shrunk_program": small, "shrink_runs": runs}
+
+
 def plan(tier, seed, build, scale):
     n = int((2000 if tier == "quick" else 30000) * scale)
     per = max(1, n // (10 if tier == "quick" else 40))
@@ -109,7 +114,7 @@ def run_unit(unit, progress):
                         {
                             "oracle": v["oracle"],
                             "mechanism": v["oracle"],
-                            "detail": {"how": how, "prio": pol, "violation": v["detail"], "program": prog},
+                            "detail": dict({"how": how, "prio": pol, "violation": v["detail"], "program": prog}, **_shrunk(prog, how, pol, cs, v["oracle"])),
                             "case": {"cases": [i, i + 1]},
                         }
                     )
